@@ -9,7 +9,11 @@ reads the raw ACK/READY/DEATH stream.  Oracles: the stream grammar
 (ACK (READY | nothing-if-NACK))* DEATH, counters (executed = READY count =
 quota at recycle, exit status 155, NACKed jobs neither executed nor counted),
 ACK pid = real child pid, ACK time inside [task sent, ACK received] and
-ordered against the task's own log stamps, task side-effect log.
+ordered against the task's own log stamps, task side-effect log.  A hang is
+decided from process state, not from a clock: the worker sleeping in read() on
+its own queues while the parent owes it nothing (deadlock), or napping with no
+job in progress (stall); a plain 40 s silence is only reported after a re-run
+alone.
 
 Lane POOL (L2): real Pool in a host process: accept callback before result
 callback, owner = acknowledging worker; a Pool subclass with a syn-queue per
@@ -158,10 +162,7 @@ def gen_lifetime(rng, method, tier, guard=False):
         jobs.append(j)
     if syn and n >= 2 and rng.random() < 0.12:
         rng.choice(jobs)['syn_delay'] = 1.25      # a slow parent
-    if p['mode'] != 'lockstep':
-        # a gate needs the harness to act after the ACK only: fine in any
-        # mode; but keep pipelined TASK messages small (one pipe buffer)
-        pass
+    # (pipelined TASK messages are small: all of them fit one pipe buffer)
     p['jobs'] = jobs
     return p
 
@@ -189,10 +190,6 @@ def run_iso_spec(spec, rec):
             # every further lifetime of a tree that hangs costs the same wait
             rec.count('iso:lifetimes_skipped_after_hang', spec['lifetimes'] - n - 1)
             break
-
-
-class Life:
-    pass
 
 
 def _recv(outq, timeout):
